@@ -55,6 +55,19 @@ def judge(work, outdir):
     for x in irep["violations"]:
         o = images[x["id"]]
         v.append({"pred": x["p"], "key": ("image", o["hist"], o["k"], o["label"], o["mode"], o["variant"], x["p"]), "image": o})
+    rrep, rstats = run_monitor(work, "FSRaceMonitor", "races.ndjson", os.path.join(outdir, "races.ndjson"))
+    races = {}
+    for line in open(os.path.join(outdir, "races.ndjson")):
+        o = json.loads(line)
+        races[o["id"]] = o
+    drift = []
+    for x in rrep["violations"]:
+        if x["p"].startswith("DRIFT"):
+            drift.append({"trace": x["id"], "program": "race history (%s held at %s)" % (races[x["id"]]["held_op"], races[x["id"]]["hold_at"]),
+                          "explained": None, "events": len(races[x["id"]]["steps"]), "first_unexplained": x["p"]})
+        else:
+            v.append({"pred": x["p"], "key": ("race", x["id"], x["p"]), "race": races[x["id"]]})
+    istats = dict(istats, races=rstats, race_drift=drift)
     return v, cstats, istats, images
 
 
@@ -94,7 +107,12 @@ def compute(tier, seed):
             akeys = set(x["key"] for x in again)
             for x in found:
                 prop = x["pred"][:3]
-                if "image" in x:
+                if "race" in x:
+                    o = x["race"]
+                    sig = {"pred": x["pred"], "held_op": o["held_op"]}
+                    title = "race history %d: %s held at %s" % (o["id"], o["held_op"], o["hold_at"])
+                    payload = {"race": o}
+                elif "image" in x:
                     o = x["image"]
                     sig = {"pred": x["pred"], "in_window": bool(o["in_window"]), "mode": o["mode"]}
                     title = "history %d boundary %d (%s) %s image %s" % (o["hist"], o["k"], o["label"], o["mode"], o["variant"])
@@ -140,13 +158,17 @@ def evidence(pid, tier, res):
         n = impl["calls_stats"].get("traces", 0)
         cov = {"states": des["states"], "transitions": des["transitions"], "traces_validated_against_impl": n, "samples": res["call_samples"],
                "design_runs": des["runs"], "calls_stats": impl["calls_stats"], "call_events": impl["call_events"],
-               "summary": "%d call sequences (%d calls) of the real store replayed through FSCalls.tla, %d design states"
-                          % (n, impl["call_events"], des["states"])}
+               "race_histories": impl["image_stats"].get("races", {}), "drift_traces": impl["image_stats"].get("race_drift", [])[:10],
+               "summary": "%d call sequences (%d calls) of the real store replayed through FSCalls.tla, %d concurrent histories with a held call judged, %d design states"
+                          % (n, impl["call_events"], impl["image_stats"].get("races", {}).get("races", 0), des["states"])}
     assumptions = ["completed fsyncs are inferred from the verifFS boundaries (a 'sync'/'dirsync'/'*.dirsync' boundary passed without an injected "
                    "failure and followed by the call's next boundary); the syscalls themselves are not traced",
                    "power loss: namespace = last directory-fsynced namespace plus any subset of later directory operations (all subsets up to 4 "
                    "pending operations, a capped sample beyond); data of a file never fsynced is dropped, halved or kept",
                    "injected failures are fail-stop (the named step reports an error and has no effect)",
+                   "C16 concurrent histories: one call held at one of its verifFS boundaries while whole calls of other writers run; the "
+                   "others never name the pointer the held call is working on at that boundary (it has not been handed out), they do name "
+                   "every name it abandoned; names whose fate a failed or overlapping call leaves open are not compared",
                    "C16 call domain: Write only on an open writer; Close/Abort on any writer repeatedly; TombstoneFile only for a pointer whose "
                    "writer has finished and whose name no later writer has drawn (a pointer is a path)"]
     return LEVEL[pid], cov, assumptions
